@@ -133,7 +133,7 @@ def mon_C02(run):
                     bad.append((k, f"get #{i} is blocked and was not woken although permits={d['permits']} closed={d['closed']}"))
         for e in row["ev"]:
             name, args = ev_args(e)
-            if name == "oppanic":
+            if name == "oppanic" and int(args[0]) not in panics:
                 bad.append((k, f"operation #{args[0]} panicked"))
             if name == "result" and args[1] == "panicked" and int(args[0]) not in panics:
                 bad.append((k, f"get #{args[0]} panicked without an injected panic"))
